@@ -367,7 +367,12 @@ impl MutableArchive {
 
         // Compress the file data if requested
         let (compressed_data, compressed_size, flags) =
-            self.prepare_file_data(data, &archive_name, &options)?;
+            self.prepare_file_data(
+                data,
+                &archive_name,
+                &options,
+                (file_offset - self.archive.archive_offset()) as u32,
+            )?;
 
         // Write the file data to the archive
         self.file.seek(SeekFrom::Start(file_offset))?;
@@ -996,6 +1001,7 @@ impl MutableArchive {
         data: &[u8],
         archive_name: &str,
         options: &AddFileOptions,
+        block_pos: u32,
     ) -> Result<(Vec<u8>, usize, u32)> {
         let mut flags = BlockEntry::FLAG_EXISTS;
         let mut output_data = data.to_vec();
@@ -1027,9 +1033,10 @@ impl MutableArchive {
         // Encrypt if requested
         if options.encrypt {
             let key = if options.fix_key {
-                // For FIX_KEY, we need the block position
-                // This is a simplified version - real implementation would adjust by block
-                hash_string(archive_name, hash_type::FILE_KEY)
+                // FIX_KEY: the base key is adjusted by the block position and the file size,
+                // exactly as Archive::read_file derives it
+                hash_string(archive_name, hash_type::FILE_KEY).wrapping_add(block_pos)
+                    ^ (data.len() as u32)
             } else {
                 hash_string(archive_name, hash_type::FILE_KEY)
             };
